@@ -111,6 +111,7 @@ def _install_minimalloc():
 # ------------------------------------------------------------------ driver helpers
 
 _MAIN = None
+_DEVNULL = open(os.devnull, "w")
 
 
 def main():
@@ -139,7 +140,7 @@ def _alarm(*_a):
     raise PassTimeout("pass timeout")
 
 
-def run_passes(ctx, mod, spec: str, alarm_s: int = 5, verify: bool = True):
+def run_passes(ctx, mod, spec: str, alarm_s: int = 3, verify: bool = True):
     """Apply a pass pipeline of the *current tree* under a wall-clock alarm (a pass that does not
     terminate is a rejection, not a violation; DESIGN.md §4)."""
     from xdsl.passes import PassPipeline
@@ -147,6 +148,8 @@ def run_passes(ctx, mod, spec: str, alarm_s: int = 5, verify: bool = True):
     m = main()
     old = signal.signal(signal.SIGALRM, _alarm)
     signal.alarm(alarm_s)
+    old_err = sys.stderr
+    sys.stderr = _DEVNULL  # some passes print diagnostics about patterns they could not apply
     try:
         PassPipeline.parse_spec(m.available_passes, spec).apply(ctx, mod)
         if verify:
@@ -154,6 +157,7 @@ def run_passes(ctx, mod, spec: str, alarm_s: int = 5, verify: bool = True):
     finally:
         signal.alarm(0)
         signal.signal(signal.SIGALRM, old)
+        sys.stderr = old_err
     return mod
 
 
